@@ -807,7 +807,7 @@ def run_shard(tier, seed, shard, nshards, res):
             rng = common.rng_for(seed, 'c18', shard, i)
             kind = 'fanout' if i % 3 == 2 else 'cache'
             cache_history(dc, sc, res, rng, kind, 'c18 seed=%d shard=%d i=%d %s' % (seed, shard, i, kind))
-            if res.counters.get('violations_raw', 0) > 8:
+            if res.new_violations() > 8:
                 return
         probe.reset()
         rng = common.rng_for(seed, 'c18x', shard)
